@@ -11,7 +11,14 @@
 //	new cap=<c>
 //	t<k> <sleep_us> enq <id> <deadline offset_us relative to the scenario start> <ctx_us>
 //	t<k> <sleep_us> deq <ctx_us>
+//	t<k> <sleep_us> cancel <h> <park_us>     wait until the call holding cancel handle h has been invoked, let it
+//	                                         park for park_us, cancel its context — the thread's NEXT line (sleep 0)
+//	                                         then runs back-to-back with the cancellation
+//	t<k> <sleep_us> await <h> <park_us>      the same without cancelling (lets a waiter park before waking it)
+//	t<k> <sleep_us> mark <h> 0               releases every `await <h>` (h names no call: a plain barrier)
 //	end
+//
+// A ctx field `c<h>:<us>` is a context with timeout <us> that is also cancellable through handle h.
 //
 // Thread k executes its lines in order, sleeping <sleep_us> before each call; ctx_us = 0 means an
 // already cancelled context, otherwise context.WithTimeout.  Elements have FIXED ABSOLUTE deadlines
@@ -88,7 +95,7 @@ func far(k int) int  { return 5_000_000 + k*slotUs }
 func (g *gen) directed(i int) {
 	r := g.r
 	j := func(lo, hi int) int { return r.Range(lo, hi) }
-	switch i % 9 {
+	switch i % 12 {
 	case 0: // consumer parked on a far element; a sooner one arrives — it must be woken by the enqueue
 		a, b := g.id(), g.id()
 		g.emit("new cap=0",
@@ -166,7 +173,75 @@ func (g *gen) directed(i int) {
 			ls = append(ls, fmt.Sprintf("t5 %d deq 150000", j(1500, 3000)))
 		}
 		g.emit(append(ls, "end")...)
+	case 9, 10, 11:
+		g.cancelRace(i % 12)
 	}
+}
+
+// cancelRace: a parked call is cancelled BACK-TO-BACK with the operation that would have woken it (the
+// waker's broadcast overlaps the cancelled waiter's way out of its select), several rounds; then a fresh
+// lone waiter parks and the next waking operation must wake it; then the capacity probe.  Any bookkeeping
+// a cond keeps about its waiters must survive this.
+//
+//	 9: producers blocked on a full bounded queue, woken by Dequeue
+//	10: consumers parked on an empty queue, woken by Enqueue of an expired element
+//	11: consumers parked on the timer of a far element, woken by Enqueue of an expired element
+func (g *gen) cancelRace(kind int) {
+	r := g.r
+	rounds := r.Range(2, 3)
+	park := func() int { return r.Range(3000, 7000) }
+	var ls []string
+	h := 0
+	// the waiter of round k (and the fresh waiter) starts when t1 has finished round k-1: `mark 100+k`
+	gate := func(th int) {
+		if h > 1 {
+			ls = append(ls, fmt.Sprintf("t%d 0 await %d 0", th, 100+h-1))
+		}
+	}
+	switch kind {
+	case 9:
+		ls = append(ls, "new cap=1", fmt.Sprintf("t1 0 enq %d %d 100000", g.id(), slot(-8)))
+		for k := 0; k < rounds; k++ {
+			h++
+			gate(10 + h)
+			ls = append(ls,
+				fmt.Sprintf("t%d %d enq %d %d c%d:%d", 10+h, r.Range(0, 500), g.id(), slot(-7+k), h, longCtx),
+				fmt.Sprintf("t1 0 cancel %d %d", h, park()),
+				"t1 0 deq 100000", // frees the slot at the instant the blocked producer gives up
+				fmt.Sprintf("t1 0 enq %d %d 30000", g.id(), slot(-7+k)),
+				fmt.Sprintf("t1 0 mark %d 0", 100+h))
+		}
+		h++
+		gate(10 + h)
+		ls = append(ls,
+			fmt.Sprintf("t%d 0 enq %d %d c%d:%d", 10+h, g.id(), slot(-2), h, longCtx), // the fresh producer
+			fmt.Sprintf("t1 0 await %d %d", h, park()+4000),
+			"t1 0 deq 100000", // must wake it
+			"t1 2000 deq 100000")
+	default:
+		capc := vlib.Pick(r, []int{0, 4})
+		ls = append(ls, fmt.Sprintf("new cap=%d", capc))
+		if kind == 11 {
+			ls = append(ls, fmt.Sprintf("t1 0 enq %d %d 100000", g.id(), far(0)))
+		}
+		for k := 0; k < rounds; k++ {
+			h++
+			gate(10 + h)
+			ls = append(ls,
+				fmt.Sprintf("t%d %d deq c%d:%d", 10+h, r.Range(0, 500), h, longCtx),
+				fmt.Sprintf("t1 0 cancel %d %d", h, park()),
+				fmt.Sprintf("t1 0 enq %d %d 100000", g.id(), slot(-7+k)), // arrives as the parked consumer gives up
+				"t1 0 deq 30000",
+				fmt.Sprintf("t1 0 mark %d 0", 100+h))
+		}
+		h++
+		gate(10 + h)
+		ls = append(ls,
+			fmt.Sprintf("t%d 0 deq c%d:%d", 10+h, h, longCtx), // the fresh consumer
+			fmt.Sprintf("t1 0 await %d %d", h, park()+4000),
+			fmt.Sprintf("t1 0 enq %d %d 100000", g.id(), slot(-2))) // must wake it
+	}
+	g.emit(append(ls, "end")...)
 }
 
 func (g *gen) random(focus string) {
@@ -231,7 +306,7 @@ func generate(tier, focus string, out *vlib.Out) {
 	g := &gen{r: vlib.NewRng(vlib.Seed()), out: out}
 	nd, nr := 108, 420
 	if focus == "wake" {
-		nd, nr = 135, 260
+		nd, nr = 180, 240
 	}
 	if tier == "thorough" {
 		nd, nr = nd*6, nr*8
@@ -258,6 +333,8 @@ type call struct {
 	id      int
 	offUs   int
 	ctxUs   int
+	handle  int // >0: the call's context is cancellable through this handle; for cancel/await: the target
+	parkUs  int
 
 	done       bool
 	res        string
@@ -285,13 +362,25 @@ func parseCase(lines []string) (capc int, calls []*call, err error) {
 		c.thr, _ = strconv.Atoi(w[0][1:])
 		c.sleepUs, _ = strconv.Atoi(w[1])
 		c.kind = w[2]
+		ctxTok := func(t string) {
+			if strings.HasPrefix(t, "c") {
+				if i := strings.IndexByte(t, ':'); i > 0 {
+					c.handle, _ = strconv.Atoi(t[1:i])
+					t = t[i+1:]
+				}
+			}
+			c.ctxUs, _ = strconv.Atoi(t)
+		}
 		switch {
 		case c.kind == "enq" && len(w) == 6:
 			c.id, _ = strconv.Atoi(w[3])
 			c.offUs, _ = strconv.Atoi(w[4])
-			c.ctxUs, _ = strconv.Atoi(w[5])
+			ctxTok(w[5])
 		case c.kind == "deq" && len(w) == 4:
-			c.ctxUs, _ = strconv.Atoi(w[3])
+			ctxTok(w[3])
+		case (c.kind == "cancel" || c.kind == "await" || c.kind == "mark") && len(w) == 5:
+			c.handle, _ = strconv.Atoi(w[3])
+			c.parkUs, _ = strconv.Atoi(w[4])
 		default:
 			return 0, nil, fmt.Errorf("bad op line %q", l)
 		}
@@ -398,9 +487,19 @@ func runCase(lines []string) []string {
 	us := func(t time.Time) int64 { return int64(t.Sub(t0)/time.Microsecond) + epochShiftUs }
 	var seq atomic.Int64
 	var mu sync.Mutex // protects the `done` flags against the watchdog's read
+	type handle struct {
+		invoked chan struct{} // closed when the call is about to enter the queue
+		once    sync.Once
+		mu      sync.Mutex
+		cancel  context.CancelFunc
+	}
+	handles := map[int]*handle{}
 	byThr := map[int][]*call{}
 	for _, c := range calls {
 		byThr[c.thr] = append(byThr[c.thr], c)
+		if c.handle > 0 && (c.kind == "enq" || c.kind == "deq" || c.kind == "mark") {
+			handles[c.handle] = &handle{invoked: make(chan struct{})}
+		}
 	}
 	var wg sync.WaitGroup
 	for _, cs := range byThr {
@@ -413,7 +512,44 @@ func runCase(lines []string) []string {
 					time.Sleep(d)
 					noteJit(&jmax, time.Since(ts)-d)
 				}
+				if c.kind == "mark" {
+					if hd := handles[c.handle]; hd != nil {
+						hd.once.Do(func() { close(hd.invoked) })
+					}
+					mu.Lock()
+					c.res, c.done = "ok", true
+					mu.Unlock()
+					continue
+				}
+				if c.kind == "cancel" || c.kind == "await" {
+					if hd := handles[c.handle]; hd != nil {
+						select {
+						case <-hd.invoked:
+							time.Sleep(time.Duration(c.parkUs) * time.Microsecond)
+						case <-time.After(5 * time.Second):
+						}
+						if c.kind == "cancel" {
+							hd.mu.Lock()
+							cf := hd.cancel
+							hd.mu.Unlock()
+							if cf != nil {
+								cf() // the thread's next line follows immediately
+							}
+						}
+					}
+					mu.Lock()
+					c.res, c.done = "ok", true
+					mu.Unlock()
+					continue
+				}
 				ctx, cancel := mkCtx(c.ctxUs)
+				invoked := func() {}
+				if hd := handles[c.handle]; hd != nil && c.handle > 0 {
+					hd.mu.Lock()
+					hd.cancel = cancel
+					hd.mu.Unlock()
+					invoked = func() { hd.once.Do(func() { close(hd.invoked) }) }
+				}
 				var res string
 				var dl, rem int64
 				var sinv, sres int64
@@ -424,6 +560,7 @@ func runCase(lines []string) []string {
 						dl = int64(c.offUs) + epochShiftUs
 						sinv = seq.Add(1)
 						tinv = time.Now()
+						invoked()
 						err := q.Enqueue(ctx, e)
 						tres = time.Now()
 						sres = seq.Add(1)
@@ -431,6 +568,7 @@ func runCase(lines []string) []string {
 					} else {
 						sinv = seq.Add(1)
 						tinv = time.Now()
+						invoked()
 						e, err := q.Dequeue(ctx)
 						tres = time.Now()
 						if err == nil && e != nil {
@@ -480,6 +618,10 @@ func runCase(lines []string) []string {
 	}
 	mu.Lock()
 	for _, c := range calls {
+		if c.kind == "cancel" || c.kind == "await" || c.kind == "mark" {
+			out = append(out, fmt.Sprintf("%s => ok", c.line)) // not a call on the queue
+			continue
+		}
 		if !c.done {
 			out = append(out, fmt.Sprintf("%s => hang", c.line))
 			continue
@@ -659,8 +801,8 @@ func classify(v []string) int {
 
 // confirm: an observation that rests on a timing assumption (a wake-up bound, the watchdog, the order of
 // two deadlines the comparator saw at two instants, the model's exact-minimum replay) is reported only
-// if it is reproduced by two further executions of the same scenario; otherwise the scenario is
-// inconclusive and the trace of an accepted execution is kept.  Observations that need no timing
+// if one of up to three further executions of the same scenario is rejected as well; if all three are
+// accepted the scenario is inconclusive and the trace of an accepted execution is kept.  Observations that need no timing
 // assumption (early release, duplicates, losses, capacity, effects of failed calls) are never retried.
 // Confirmation stops at the first confirmed (or hard) rejection: the run is failing anyway.
 func confirm(cases [][]string, results [][]string, st *stats) (refutedHang bool) {
@@ -689,25 +831,32 @@ func confirm(cases [][]string, results [][]string, st *stats) (refutedHang bool)
 			return false
 		}
 		hung := strings.HasSuffix(tr[len(tr)-1], "=> hang")
-		confirmed := true
-		for attempt := 0; attempt < 2; attempt++ {
+		// A complaint that needs a race to be hit (a wake-up lost after a cancellation overlapped a
+		// broadcast) re-rolls the race on every execution: it is confirmed as soon as ONE of up to three
+		// further executions is rejected again (for any reason), and refuted only if all three are accepted.
+		// Two independent spurious rejections within four executions do not happen.
+		confirmed := false
+		var accepted []string
+		for attempt := 0; attempt < 3; attempt++ {
 			st.Recheck++
 			aborted.Store(false)
 			tr2 := runCase(cases[i])
 			v2 := verdicts(drv, tr2)
 			if v2 == nil {
+				confirmed = true // cannot judge: leave the original observation to the pipeline
 				break
 			}
-			k := classify(v2)
-			if k == 0 || k == 2 {
+			if classify(v2) != 0 {
 				results[i] = tr2
-				confirmed = k == 2
+				confirmed = true
 				break
 			}
+			accepted = tr2
 		}
 		if confirmed {
 			return false
 		}
+		results[i] = accepted
 		st.Refuted++
 		if hung {
 			refutedHang = true
